@@ -19,7 +19,7 @@ claimed = {
  "C16": ("The real lexer on quote + arbitrary ASCII bytes + quote (every spelling of every string that fits the bound) against refUnescape; API level: the compiled literal matches exactly the spelled text among all texts of that length.", "5/C16"),
  "C17": ("The real Json/FormattedJson/MarshalJSON code is executed symbolically with encoding/json replaced by a type-directed codec stub that honours the Marshaler contract; both renderings are parsed back and compared with the in-memory matches for every ASCII text (incl. quotes, backslashes, control characters) up to the bound. Reduced form: byte-level escaping of the real encoder is outside the claim.", "5/C17, 6"),
  "C18": ("The real main() is executed symbolically under a flag/exit/stdout/file-system model over the cross product of documented flag values (booleans symbolic); exit status, stdout JSON, JSON files and per-mode file effects are asserted; counterexamples are replayed against the built binary. Reduced form: argv parsing and process plumbing are modelled.", "5/C18, 6"),
- "C19": ("Footprint/lockset analysis over all explored paths of Compile and Run: no write into the shared compiled program, every written package-level variable consistently protected by one mutex; since libvore starts no goroutines this covers all interleavings; counterexamples are confirmed under the race detector.", "5/C19"),
+ "C19": ("(1) Footprint/lockset analysis over all explored paths of Compile and Run: no write into the shared compiled program; every written package-level variable, init-time heap object/map and object published into shared memory is consistently protected by one mutex; since libvore starts no goroutines, empty write footprints cover all interleavings. (2) Two-thread symbolic scheduler over the real code: Compile||Compile for all pairs of 8 sources and Run||Run||Compile on a shared program, a symbolic switch decision at every synchronisation point (<= 3 preemptions), each call must return its sequential result. Counterexamples are confirmed natively under the race detector.", "5/C19, 8.13"),
  "C20": ("The real segment matcher against the recursive definition of '*' with every pattern/name byte symbolic, and the real ParsePath/GetFileList over the model file system with symbolic entry names and is-directory bits.", "5/C20"),
  "C13": ("Relational check real-vs-real: named (inline subroutine / global pattern) and written-out sources must give equal matches on every text up to the bound; repeated Run, recompilation, and a write-footprint check (bytecode frozen during Run).", "5/C13"),
 }
